@@ -8,7 +8,7 @@ from ..core import canon
 from ..runner import Suite
 
 MANIFEST = dict(
-    text="Lean 4 theorems about an association-list model of InMemorySessionManager with the clock and the id supply as inputs, for operation histories of any length: refinement to the standard library's finite map (Std.ExtHashMap: insert/erase/modify/filter/size) with equal outputs for every operation; expiry keeps exactly the sessions not idle for longer than the limit, unchanged, and counts the rest; the code's collect-then-delete loop equals that filter; live ids are pairwise distinct and, under a fresh id supply, no create/initialize ever hits a live id; initialize adds exactly one session holding the client's info and the answered version (for an arbitrary answer policy); dispatch with a session id updates that session's activity and nothing else. Tied to the code by a correspondence run of the real SessionManager and ProtocolHandler under a patched integer clock: every operation word up to the stated length over a 3-session universe plus seeded histories up to length 200, outputs and the whole store compared after every step; 'listing returns a copy' is decided there by mutating the returned dict.",
+    text="Lean 4 theorems about an association-list model of InMemorySessionManager with the clock and the id supply as inputs, for operation histories of any length: refinement to the standard library's finite map (Std.ExtHashMap: insert/erase/modify/filter/size) with equal outputs for every operation; expiry keeps exactly the sessions not idle for longer than the limit, unchanged, and counts the rest; the code's collect-then-delete loop equals that filter; live ids are pairwise distinct and, under a fresh id supply, no create/initialize ever hits a live id; initialize adds exactly one session holding the client's info and the answered version (for an arbitrary answer policy); dispatch with a session id updates that session's activity and nothing else. Tied to the code by a correspondence run of the real SessionManager and ProtocolHandler under a patched integer clock: every operation word up to the stated length over a 3-session universe plus seeded histories up to length 200, outputs and the whole store compared after every step; 'listing returns a copy' is decided there by mutating the returned dict. Extension: every message kind through ProtocolHandler (no method / unknown / handler returns, raises, nonsense; activity is refreshed after the no-method exit and before the handler), the orphan session of an id-less initialize, a scripted repeating id supply (overwrite), and generate_session_id regenerated from source with format and injectivity theorems over canonical uuid texts.",
     note="Trusted: Lean kernel (propext, Classical.choice, Quot.sound), Std.ExtHashMap as the meaning of 'a simple map', uuid4 freshness (explicit hypothesis of c19_ids_unique; every id the implementation returns is also checked to be new), the harness and its clock seam. Python aliasing has no counterpart in the model: the copy semantics of list_sessions is checked only by the correspondence run.",
     technique="Lean 4 refinement proof (association list -> Std.ExtHashMap) + model-based differential run of operation sequences against the real code with a controlled clock",
     design="5/C19",
